@@ -252,14 +252,15 @@ TypesC09 == { <<TItem, TMyErr, TColor, TOrder, TLine, TLevel, TCode, TDup>> }
 \* ---- C11: every validator rule either converter knows x applicable / inapplicable field types (one field per rule) -----------------
 RuleList == << "required", "omitempty", "email", "uuid", "ip", "ipv4", "ipv6", "hostname", "date", "datetime", "gt=1", "gte=2", "lt=9", "lte=8", "min=1", "max=7", "len=5",
                "pattern=^a+$", "minItems=1", "maxItems=3", "uniqueItems", "enum=a|b", "oneof=a b", "unknownrule=3", "gte=2,lte=16", "required,min=3,max=40", "gt=0,lt=10,required", "enum=1|2", "oneof=1 2", "enum=a", "oneof=red blue",
-               "oneof=required optional", "ne=required", "min=1,oneof=xrequired y" >>
-RuleFieldTypes == {"string", "*string", "int", "uint8", "float64", "bool", "[]string", "[]int", "p1.Color", "map[string]int", "time.Time", "[]byte"}
+               "oneof=required optional", "ne=required", "min=1,oneof=xrequired y",
+               "oneof=0.1 0.25", "enum=0.3|1.5" >>      \* (0.1 and 0.3 have no exact binary32 representation)
+RuleFieldTypes == {"string", "*string", "int", "uint8", "float64", "float32", "bool", "[]string", "[]int", "p1.Color", "map[string]int", "time.Time", "[]byte"}
 RulesFields(ft) == [i \in DOMAIN RuleList |-> Fld("F" \o ToString(i), ft, "f" \o ToString(i), RuleList[i])]
 TRules(ft) == Ty("p1", "Rules", "struct", "", RulesFields(ft), <<>>)
 RuleTypeSets == { <<TItem, TMyErr, TColor, TRules(ft)>> : ft \in RuleFieldTypes }
 RuleParams(t, k) == [i \in DOMAIN RuleList |-> Prm("b" \o ToString(i), t, k, "", RuleList[i])]
 MethodsC11rules == { MthP("POST", <<Prm("e", "p1.Rules", "Body", "", "")>>, <<"p1.Rules", "error">>, <<>>, 0) }
-MethodsC11rulesP ==   { MthP("POST", RuleParams(t, "Query"), <<"error">>, <<>>, 0) : t \in {"string", "*string", "int", "float64", "[]string", "[]int", "bool", "p1.Color"} }
+MethodsC11rulesP ==   { MthP("POST", RuleParams(t, "Query"), <<"error">>, <<>>, 0) : t \in {"string", "*string", "int", "float64", "float32", "[]string", "[]int", "bool", "p1.Color"} }
                    \cup { MthP("POST", RuleParams(t, "Header"), <<"error">>, <<>>, 0) : t \in {"string", "int"} }
                    \cup { MthP("POST", RuleParams(t, "FormField"), <<"error">>, <<>>, 0) : t \in {"string", "int", "p1.Color", "*p1.Color", "[]string"} }
                    \cup { MthP("POST", RuleParams(t, "Path"), <<"error">>, <<>>, 0) : t \in {"string", "p1.Color"} }
